@@ -8,6 +8,9 @@ spec       : independently of the model, THIS module evaluates the property's ow
              chain (path in the operand graph through value-computing instructions) from a parameter / free variable /
              call result to a returned value / call argument / bound variable / branch condition must have its end points
              connected by a summary edge.  A missing (function, origin, use) is the concrete failing input (the replay).
+tie L2     : the same dump carries the store / load / alloc tables (LS / LL / LA lines); the extracted booleans of Lang/RegSem.v
+             (check_addr_alloc = the fragment, check_store_closed, check_loads_ok) are evaluated per function on the same selected
+             fact list: T-cert of Properties/C01Sem.intra_sound_L2_noalias_partial_tcert (alarm l2-store-closed:<fn> / l2-loads-ok:<fn>)
 tie T-gen  : harness/cmd/gentables gen_builtins.go -> coq/gen/GenBuiltins.v (case/arity table of doBuiltinCall)
 Only `required subset of implementation` is an alarm; extra marks / edges never are.
 """
@@ -36,7 +39,7 @@ DATA_BUILTINS = {"append", "len", "min", "max", "complex", "real", "imag", "ssa:
 
 class Fn:
     __slots__ = ("fid", "name", "nblocks", "npts", "nvals", "nret", "nres", "tag", "instrs", "origins", "uses", "edges", "marks",
-                 "notes", "lines", "src")
+                 "notes", "lines", "src", "stores", "loads", "allocs")
 
 
 def parse_dump(path, keep_lines=6000):
@@ -58,6 +61,7 @@ def parse_dump(path, keep_lines=6000):
                 cur.tag = p[8] if len(p) > 8 else ""
                 cur.instrs, cur.origins, cur.uses, cur.edges, cur.marks, cur.notes, cur.lines = {}, [], [], set(), {}, [], [l]
                 cur.src = src
+                cur.stores, cur.loads, cur.allocs = [], [], set()
                 continue
             if t == "D":
                 src = l.split()[1]
@@ -83,6 +87,14 @@ def parse_dump(path, keep_lines=6000):
             elif t == "K":
                 p = l.split()
                 cur.marks[int(p[1])] = p[2]
+            elif t == "L":
+                p = l.split()
+                if p[0] == "LS":
+                    cur.stores.append((int(p[1]), int(p[2]), int(p[3])))
+                elif p[0] == "LL":
+                    cur.loads.append((int(p[1]), int(p[2])))
+                elif p[0] == "LA":
+                    cur.allocs.add(int(p[1]))
             elif t == "X":
                 cur.notes.append(l[2:].strip())
             elif t == "Z":
@@ -181,6 +193,21 @@ def spec(fn):
     return required, info
 
 
+def l2_strict_fragment(fn):
+    """independent of the extracted check_addr_alloc (which is vacuously true for an address register that no instruction
+    defines: parameter, free variable, global): the function dereferences something, and every register used as the address of
+    a reachable store / load is defined by an instruction, all of them Allocs"""
+    addrs = {a for (p, a, _x) in fn.stores if fn.instrs.get(p, (0, 0, False))[2]} | \
+            {a for (p, a) in fn.loads if fn.instrs.get(p, (0, 0, False))[2]}
+    if not addrs:
+        return False
+    defs = collections.defaultdict(list)
+    for pid, ins in fn.instrs.items():
+        if ins[2] and ins[1]:
+            defs[ins[1]].append(ins[0])
+    return all(defs.get(a) and all(k == "Alloc" for k in defs[a]) for a in addrs)
+
+
 def parse_model_out(path):
     res = {}
     with open(path) as f:
@@ -193,6 +220,8 @@ def parse_model_out(path):
                 res[p[1]] = {"R": {k: int(v) for k, v in d.items()}, "V": [], "W": [], "Q": set()}
             elif p[0] in "VW":
                 res[p[1]][p[0]].append((p[2], [int(x) for x in p[3:]]))
+            elif p[0] == "Y":
+                res[p[1]].setdefault("Y", []).append([int(x) for x in p[3:]])
             elif p[0] == "Q":
                 res[p[1]]["Q"].add((int(p[2]), int(p[3])))
     return res
@@ -293,7 +322,7 @@ def run(chk):
     lap("go_build_c08dump")
     gen_builtins_table(chk)
     lap("gen_tables")
-    failed = chk.prove("theories/Properties/C08.v")
+    failed = chk.prove("theories/Properties/C08.v", extra_targets=["theories/Lang/RegSem.vo"])   # RegSem: extracted L2 booleans
     lap("coq_prove")
     model = vlib.build_model("c08")
     lap("extract_and_ocaml")
@@ -418,6 +447,32 @@ def run(chk):
                 by_key[k].append((fn, "%s: rule instance violated in the implementation's final state: %s %s" % (fn.name, rule, a), None))
             if r["wf"] and r["closed"] and r["fwd"] and not missing:
                 stats["validated"] += 1
+            # (c) T-cert of the L2 fragment theorem (Properties/C01Sem.intra_sound_L2_noalias_partial_tcert): its boolean
+            #     hypotheses on the real output.  Outside the fragment (check_addr_alloc false) the theorem does not apply.
+            deref = r.get("nst", 0) + r.get("nld", 0)
+            if deref:
+                stats["l2_functions_with_store_or_load"] += 1
+            if r.get("l2aa"):
+                stats["l2_addr_alloc_true"] += 1
+                if deref:
+                    stats["l2_addr_alloc_true_with_store_or_load"] += 1
+                if l2_strict_fragment(fn):
+                    stats["l2_fragment_all_addresses_are_alloc_registers"] += 1
+                if not r.get("l2sc"):
+                    y = (mr.get("Y") or [[0, 0, 0, 0]])[0]
+                    by_key["l2-store-closed:" + fn.name].append(
+                        (fn, "%s satisfies check_addr_alloc but check_store_closed fails on the real state: store *v%d = v%d at point %d, "
+                             "mark %d is on the stored value and not on the address register" % (fn.name, y[2], y[1], y[0], y[3]), None))
+                if not r.get("l2lo"):
+                    by_key["l2-loads-ok:" + fn.name].append((fn, "%s satisfies check_addr_alloc but check_loads_ok fails" % fn.name, None))
+                if r["closed"] and r.get("l2sc") and r.get("l2lo"):
+                    stats["l2_theorem_hypotheses_all_true"] += 1
+                    if l2_strict_fragment(fn):
+                        stats["l2_theorem_hypotheses_all_true_strict_fragment"] += 1
+            else:
+                stats["l2_outside_fragment"] += 1
+                if not r.get("l2sc", 1):
+                    stats["l2_store_closed_false_outside_fragment"] += 1
             if len(chk.cov["samples"]) < 6 and info["steps_ge2"]:
                 k, (o, u, path) = max(required.items(), key=lambda kv: len(kv[1][2]))
                 chk.sample({"function": fn.name, "points": fn.npts, "values": fn.nvals, "facts_checked": r["nfacts"],
@@ -460,8 +515,11 @@ def run(chk):
         dist["points_per_function"] = {"min": sizes[0], "median": sizes[len(sizes) // 2], "max": sizes[-1]}
     chk.cov["distribution"] = dist
     chk.cov["partial_or_refuted"] = [
-        "impl_state_closed_refuted (Properties/C08.v): the real final state of `func three(a string)(int,int,string)` is not closed "
-        "(known finding return-tuple-index-bound)"]
+        "impl_state_closed_refuted (Properties/C08.v): witness = the real final state of `func three(a string)(int,int,string)` dumped "
+        "from the tree before fix e5a6fa9 (not closed, chain uncovered); on the current tree the function validates",
+        "forward closure of the WHOLE state is refuted on the current tree for marks created by the defer replay "
+        "(known finding defer-replay-not-propagated)",
+        "intra_sound_L2_noalias_partial_tcert (Properties/C01Sem.v): its boolean hypotheses are evaluated per function, see distribution l2_*"]
     chk.assumptions += [
         "SSA as built by x/tools/go/ssa; wf_ssa (unique definitions, definitions reach uses along the CFG) is CHECKED by the verified "
         "check_wf_ssa on every function: %d of %d not wf" % (stats["not_wf_ssa"], stats["functions"]),
@@ -470,6 +528,9 @@ def run(chk):
         "that the analysis treats as builtins by name are NOT excluded (finding builtin-name-shadow)" % stats["no_node_excluded"],
         "path-insensitive configuration (config.NewDefault); functions above the size caps are skipped: %d too large, %d too many facts"
         % (stats["skipped_too_large"], stats["skipped_too_many_facts"]),
+        "L2 (Lang/RegSem.hfunc = func + store/load/alloc tables from the LS/LL/LA lines): check_addr_alloc delimits the fragment of "
+        "intra_sound_L2_noalias_partial_tcert; it is vacuously true for address registers that no instruction defines (parameters, free "
+        "variables, globals) -- the count l2_fragment_all_addresses_are_alloc_registers is the strict, independently computed fragment",
         "the selection of the closed subset S' of the implementation's facts is done by the untrusted driver; the verified checker "
         "proves S' closed w.r.t. the full CFG and rule system, every Edge in S' is a real summary edge",
     ]
